@@ -186,6 +186,66 @@ Theorem C05_no_parameters_proxy :
 Proof. exact proxy_unit_spellings. Qed.
 Print Assumptions C05_no_parameters_proxy.
 
+(* Building values with the public API (call/mod.rs: Call::new / From, set_oneway, set_more,
+   set_upgrade; reply.rs: Reply::new / From, set_continues).  Each setter changes its own field
+   only; setters of different flags commute; so whatever the order of the setter calls, the value -
+   and therefore its wire image - is determined by the method / parameters it was made of and, per
+   flag, the LAST setter of that flag (false / None when there is none). *)
+Theorem C05_call_setters_own_field :
+  forall c f b,
+  cv_meth (call_set c (f, b)) = cv_meth c /\
+  (cv_oneway (call_set c (f, b)) = if flag_eqb Oneway f then b else cv_oneway c) /\
+  (cv_more (call_set c (f, b)) = if flag_eqb More f then b else cv_more c) /\
+  (cv_upgrade (call_set c (f, b)) = if flag_eqb Upgrade f then b else cv_upgrade c).
+Proof. exact call_set_own_field. Qed.
+Print Assumptions C05_call_setters_own_field.
+
+Theorem C05_call_setters_commute :
+  forall c f g a b,
+  f <> g -> call_set (call_set c (f, a)) (g, b) = call_set (call_set c (g, b)) (f, a).
+Proof. exact call_set_commute. Qed.
+Print Assumptions C05_call_setters_commute.
+
+Theorem C05_built_call_logical_value :
+  forall meth ops,
+  build_call meth ops =
+  mk_callv meth (last_set Oneway ops false) (last_set More ops false) (last_set Upgrade ops false).
+Proof. exact build_call_logical. Qed.
+Print Assumptions C05_built_call_logical_value.
+
+Theorem C05_built_call_order_irrelevant :
+  forall meth ops ops',
+  NoDup (map fst ops) -> Permutation ops ops' -> build_call meth ops' = build_call meth ops.
+Proof. exact build_call_order_irrelevant. Qed.
+Print Assumptions C05_built_call_order_irrelevant.
+
+Theorem C05_built_call_encoding :
+  forall M meth ops ms0,
+  encoder M meth = Some (JObj ms0) ->
+  enc_call M (call_rval (build_call meth ops)) =
+  Some (JObj (ms0 ++ flag_members (last_set Oneway ops false) (last_set More ops false)
+                                  (last_set Upgrade ops false))).
+Proof. exact built_call_encoding. Qed.
+Print Assumptions C05_built_call_encoding.
+
+Theorem C05_built_reply_logical_value :
+  forall params ops, build_reply params ops = mk_replyv params (last ops None).
+Proof. exact build_reply_logical. Qed.
+Print Assumptions C05_built_reply_logical_value.
+
+Example C05_builder_nonvacuous :
+  let ops := [(More, true); (Oneway, true); (More, false); (Upgrade, true)] in
+  NoDup (map fst [(More, true); (Oneway, true); (Upgrade, false)]) /\
+  build_call (RVar 0 []) ops = mk_callv (RVar 0 []) true false true /\
+  enc_call M_meth (call_rval (build_call (RVar 0 []) ops))
+  = Some (JObj [("method", JStr "org.example.M.Ping"); ("oneway", JBool true); ("upgrade", JBool true)]) /\
+  enc_reply P_strict (reply_rval (build_reply (RSome (RStruct [RInt 1; RStr "n"])) []))
+  = Some (JObj [("parameters", JObj [("id", JNum 1); ("name", JStr "n")])]).
+Proof.
+  cbv zeta. repeat split; try (vm_compute; reflexivity).
+  repeat constructor; cbn [In]; intros H; repeat destruct H as [H | H]; try discriminate; exact H.
+Qed.
+
 (* Of the tree as pinned the three-spellings statements were false (plain serde unit variants,
    `()` for methods without output): witnesses. *)
 Theorem C05_refuted_before_repairs :
